@@ -5,6 +5,7 @@ import Setec.Driver.HttpDrv
 import Setec.Driver.CliDrv
 import Setec.Driver.StoreDrv
 import Setec.Driver.LookupDrv
+import Setec.Driver.BackupDrv
 import Setec.Generated.Facts
 open Setec.Driver
 
@@ -62,6 +63,11 @@ def main (args : List String) : IO UInt32 := do
     let st ← loop stdin lookupLine {} 1
     printCover st.cover
     IO.println s!"SUMMARY family=lookup steps={st.cases} clause_evals={st.cases * 6} propfail={st.fails} diverge={st.diverges}"
+    return 0
+  | ["backup"] =>
+    let st ← loop stdin backupLine {} 1
+    printCover st.cover
+    IO.println s!"SUMMARY family=backup steps={st.cases} clause_evals={st.cases * 9} propfail={st.fails} diverge={st.diverges}"
     return 0
   | ["fs"] =>
     let st ← loop stdin fsLine {} 1
